@@ -4,6 +4,7 @@ CONSTANTS
   Depth = 2
   Width = 1
   Rich = FALSE
+  TruncAll = FALSE
   MaxChunks = 1
   ChunkLens = {0}
 INVARIANTS RoundTrip TruncFails LoadInBounds
